@@ -513,6 +513,10 @@ def pack_into_passes(nng, arch, verbose_packing=False):
             if ps.placement == PassPlacement.Cpu and (
                 ps.ops[0].ifm in sg.input_tensors
                 and (ifm2 in sg.input_tensors or ifm2 is None)
+                # operators with more operands than ifm/ifm2 (e.g. Concat): none of them may come from another pass
+                and all(
+                    tens in sg.input_tensors or all(op.type in startup_init_ops for op in tens.ops) for tens in ps.inputs
+                )
                 or (ps.ops[0].type in (Op.VarHandle, Op.ReadVariable, Op.CallOnce))
             ):
                 # This CPU pass only depends on sg.input_tensors or resource variable
